@@ -123,7 +123,12 @@ class unix_disabled(uh.ifc.DisabledHash, uh.MinimalHandler):
             hash = to_native_str(hash, param="hash")
             if cls.identify(hash):
                 # extract original hash, so that we normalize marker
-                hash = cls.enable(hash)
+                try:
+                    hash = cls.enable(hash)
+                except ValueError:
+                    # already disabled, with no original hash embedded (bare marker / empty string):
+                    # stays disabled, nothing to carry over.
+                    hash = None
             if hash:
                 out += hash
         return out
